@@ -38,4 +38,30 @@ def extract():
             record(name, REL, raw, re.search(re.escape(first), raw) or re.search(r"pub async fn reshard_try_stream", raw), True)
         else:
             fail(name, "expected statement not found in reshard_try_stream (the model transcribes it)")
+    # the origin-labelled receive side (`recv_from_shards`) is consumed ONLY by reshard_try_stream, whose assembly is
+    # `[from shard 0][from shard 1]…` (items above). A second consumer in non-test code could hand out the records in
+    # ARRIVAL order (timing dependent, different on the three helpers) — seed C19h did that for a shard without rows.
+    import os
+    from extract import SRC
+    consumers = []
+    for root, _dirs, files in sorted(os.walk(SRC)):
+        for fn_ in sorted(files):
+            if not fn_.endswith(".rs"):
+                continue
+            pth = os.path.join(root, fn_)
+            with open(pth) as fh:
+                src_ = fh.read()
+            # non-test part of the file: everything before the first test-only module
+            cut = re.search(r"#\[cfg\((?:all\()?test\b[^\]]*\]\s*(?:#\[[^\]]*\]\s*)*(?:pub(?:\([a-z]+\))?\s+)?mod\s+\w+\s*\{", src_)
+            body = re.sub(r"//[^\n]*", "", src_[:cut.start()] if cut else src_)
+            for m_ in re.finditer(r"\.\s*recv_from_shards\b", body):
+                consumers.append((os.path.relpath(pth, SRC), body.count("\n", 0, m_.start()) + 1))
+    own = re.search(r"pub async fn reshard_try_stream<.*?\n\}\n", t, re.S)
+    inside = bool(own and re.search(r"\.\s*recv_from_shards\b", own.group(0)))
+    if len(consumers) == 1 and consumers[0][0] == REL and inside:
+        record("reshard.sole_consumer_of_recv_from_shards", REL, raw, re.search(r"\.recv_from_shards::<K>\(\)", raw) or re.search(r"recv_from_shards", raw), 1)
+    else:
+        fail("reshard.sole_consumer_of_recv_from_shards",
+             "recv_from_shards is consumed outside reshard_try_stream (non-test code): " + ", ".join(f"{a}:{b}" for a, b in consumers)
+             + " - records received there are not assembled in origin order by the modelled function")
     return {}
